@@ -214,6 +214,26 @@ void h_construct_throw(void) {            /* lemma T: entered at the second retu
   COVER(handler_ran == 1, "handler ran");
 }
 
+/* lemma R: two activations of the same try block open at once (recursion / re-entrancy): each activation registers a jump
+ * buffer of its own, so a throw in the inner one cannot re-enter it and the outer activation's buffer is still what setjmp filled */
+static void activation(int d) {
+  try {
+    if (d > 0) activation(d - 1);
+    else {
+      ASSERT(REC.v.depth == OLD.depth + 2, "two activations of the block are open");
+      jmp_buf* inner = REC.v.buffers[REC.v.depth - 1]; jmp_buf* outer = REC.v.buffers[REC.v.depth - 2];
+      ASSERT(!__CPROVER_same_object(inner, outer), "every open activation of a try block registers its own jump buffer (recursive use of one block)");
+      COVER(1, "innermost activation reached");
+    }
+  } catch (e in TypeError) { handler_ran = 1; }
+}
+void h_construct_reentrant(void) {
+  arbitrary_record(); __CPROVER_assume(REC.v.depth + 2 < EXCEPTION_MAX_DEPTH);
+  cv_setjmp_ret = 0; mode = M_NONE;
+  activation(1);
+  ASSERT(REC.v.depth == OLD.depth && !handler_ran, "after both activations complete the depth is what it was and no handler ran");
+}
+
 /* discharge of the eq contract used above: eq on Type objects is Type_Cmp == 0 (C08 dispatch pair (Type, Cmp)), Type_Cmp is
  * strcmp of the names (C09.Type_Cmp.k1), and the names of the exception kinds are pairwise different (here, on the
  * real static objects, with the reference strcmp) */
